@@ -404,6 +404,20 @@ Theorem C02_cross_protocol_response : forall a fs tfs cs l0 fr parts m sizes,
 Proof. exact cross_protocol_response. Qed.
 Print Assumptions C02_cross_protocol_response.
 
+(* announced x sent trailer fields: what the Trailer header announced (any set of keys - a subset
+   of the fields sent, a superset, disjoint from them, nothing) never hides a field that was
+   sent.  Under every key that occurs in the trailer section the caller finds exactly the
+   values sent, in order (HTTP/1.1: mergeSetHeader; HTTP/2: copyTrailers; HTTP/3 delivers
+   [collect T] itself, C02_trailer_fields_collect); a key that was only announced stays as
+   announced. *)
+Theorem C02_trailers_sent_are_delivered : forall k declared T,
+  hget k (merge_set_header declared (collect T)) =
+    match values_of k T with [] => hget k declared | vs => Some vs end /\
+  hget k (set_all declared (collect T)) =
+    match values_of k T with [] => hget k declared | vs => Some vs end.
+Proof. exact trailers_sent_are_delivered. Qed.
+Print Assumptions C02_trailers_sent_are_delivered.
+
 (* the linear-time copy of the reader that the correspondence check evaluates (Model/H1Fast.v)
    IS the reader the theorems above are about, on every input *)
 Theorem C02_checked_reader_is_the_reader : forall meth m sizes s,
